@@ -239,7 +239,9 @@ def twin(da, h, structured=False):
     """freshly constructed array with the same values, labels and dims.  structured=True keeps grouped axes as
     MultiAxis over fresh copies of their members (needed by unflatten / reshape); otherwise a grouped axis becomes
     a plain Axis with the same tuple labels"""
-    return da.DimArray(np.array(h.values, copy=True), axes=[twin_axis(da, ax, structured) for ax in h.axes])
+    # order='C': a freshly constructed array owns an ordinary row-major buffer (the history-laden one may be a
+    # Fortran-ordered or strided view)
+    return da.DimArray(np.array(h.values, copy=True, order="C"), axes=[twin_axis(da, ax, structured) for ax in h.axes])
 
 
 def has_group(h):
